@@ -277,7 +277,22 @@ def rule_resolution(ck, F):
             a = Hh.strip(e["args"][0])
             if a.get("k") == "Tup" and len(a["es"]) == 2:
                 seen["entry"] = og.nf_str(W.NF.nf(a["es"][0], env))
-    W.walk_fn("<model::soap::message::SoapMessage as model::TryFromNode<'n>>::try_from_node", cb)
+    # the conversion function and the private helpers of its module that it calls (a loop body extracted into `read_part`)
+    from engine.rulekit import scans
+    root = "<model::soap::message::SoapMessage as model::TryFromNode<'n>>::try_from_node"
+    g = scans.call_graph(F.lib)
+    fns, frontier = [root], [root]
+    for _ in range(2):
+        nxt = []
+        for f_ in frontier:
+            for c in sorted(g.get(f_, ())):
+                cb_ = F.lib.body(c)
+                if c not in fns and cb_ is not None and cb_.get("hir") is not None and not cb_.get("closure") and c.startswith("model::soap::message::"):
+                    fns.append(c)
+                    nxt.append(c)
+        frontier = nxt
+    for f_ in fns:
+        W.walk_fn(f_, cb)
     lk = seen.get("lookup")
     if lk and "'element'" in lk[1] and "'element'" in lk[2] and "resolve_type" in lk[1] + lk[2] or lk and "split_once" in lk[1]:
         ck.ok("R6", "part->element", "message.rs", "message part resolved from part@element by (local name, namespace of the prefix)")
